@@ -1,6 +1,6 @@
 // Writes $OUT_DIR/caps.rs: the capacities the harness is monomorphised for.
 // Base lists below; VERIF_EXTRA_CAPS="4095,4096,..." adds capacities for the
-// tracked element types (E: 16 bytes, B: 96 bytes) and for u8 — used when the
+// tracked element types (E, NE: 16 bytes; B, NB: 256 bytes, up to 600) and for u8 — used when the
 // source fingerprint of a modelled function changed and its new numeric
 // literals steer the search (tools/srcfp.py, tools/check.py).
 use std::collections::BTreeSet;
@@ -53,8 +53,8 @@ fn main() {
          \"u8\" => dispatch!(n, u8, hdr, ops, out; {}),\n\
          \"Z\" => dispatch!(n, Z, hdr, ops, out; {}),\n\
          _ => false,\n}}\n}}\n",
-        list(E, &extra, 1 << 21), list(B, &extra, 1 << 17), list(U8, &extra, 1 << 22), list(Z, &none, 0),
-        w = words, ne = list(SMALL, &extra, 1 << 19), nb = list(SMALL, &none, 0),
+        list(E, &extra, 1 << 21), list(B, &extra, 600), list(U8, &extra, 1 << 22), list(Z, &none, 0),
+        w = words, ne = list(SMALL, &extra, 8200), nb = list(SMALL, &extra, 600),
         sm = list(SMALL, &none, 0), sm2 = list(SMALL, &none, 0));
     let out = env::var("OUT_DIR").unwrap();
     fs::write(Path::new(&out).join("caps.rs"), src).unwrap();
